@@ -190,7 +190,16 @@ struct Obs {
 
 fn observe(c: &Case, dir: &std::path::Path, idx: usize) -> Result<(Obs, Option<String>), String> {
     let (res, path) = if c.as_file {
-        let p = dir.join(format!("case_{idx}.asn"));
+        // every fifth file has a name that is not valid UTF-8 (legal on Unix): the path is
+        // still reported, in its lossy rendering
+        let p = if idx % 5 == 3 {
+            use std::os::unix::ffi::OsStringExt;
+            let mut name = format!("case_{idx}_donn").into_bytes();
+            name.extend_from_slice(&[0xE9, b'e', b's', b'.', b'a', b's', b'n']);
+            dir.join(std::ffi::OsString::from_vec(name))
+        } else {
+            dir.join(format!("case_{idx}.asn"))
+        };
         std::fs::write(&p, &c.text).map_err(|e| format!("INFRA: {e}"))?;
         let r = crate::comp::guarded(|| Compiler::<RasnBackend, _>::new().add_asn_by_path(p.clone()).compile_to_string());
         let _ = std::fs::remove_file(&p);
